@@ -242,6 +242,7 @@ var props = map[string]*propCfg{
 			{Kind: "mc", Name: "h", Module: "MC_C14", Cfg: "C14_h.cfg", Timeout: 10 * time.Minute, TLCWorkers: 4, Workers: 8},
 			{Kind: "mc", Name: "dev-nowait", Module: "MC_C14", Cfg: "C14_dev_nowait.cfg", Timeout: 5 * time.Minute, TLCWorkers: 1, NoExport: true, Expect: "AllCompleted"},
 			{Kind: "mc", Name: "j", Module: "MC_C14", Cfg: "C14_j.cfg", Timeout: 10 * time.Minute, TLCWorkers: 4, Workers: 8},
+			{Kind: "mc", Name: "k", Module: "MC_C14", Cfg: "C14_k.cfg", Timeout: 10 * time.Minute, TLCWorkers: 4, Workers: 8},
 			{Kind: "mc", Name: "dev-empty", Module: "MC_C14", Cfg: "C14_dev_empty.cfg", Timeout: 5 * time.Minute, TLCWorkers: 1, NoExport: true, Expect: "AllCompleted"},
 			{Kind: "mc", Name: "dev-nochain", Module: "MC_C14", Cfg: "C14_dev_nochain.cfg", Timeout: 5 * time.Minute, TLCWorkers: 1, NoExport: true, Expect: "AllCompleted"},
 			{Kind: "mc", Name: "registry", Module: "Registry", Cfg: "Registry_quick.cfg", Timeout: 5 * time.Minute, TLCWorkers: 4, Workers: 4},
@@ -263,6 +264,7 @@ var props = map[string]*propCfg{
 			{Kind: "mc", Name: "i", Module: "MC_C14", Cfg: "C14_i.cfg", Timeout: 20 * time.Minute, TLCWorkers: 4, Workers: 8},
 			{Kind: "mc", Name: "dev-nowait", Module: "MC_C14", Cfg: "C14_dev_nowait.cfg", Timeout: 5 * time.Minute, TLCWorkers: 1, NoExport: true, Expect: "AllCompleted"},
 			{Kind: "mc", Name: "j", Module: "MC_C14", Cfg: "C14_j.cfg", Timeout: 10 * time.Minute, TLCWorkers: 4, Workers: 8},
+			{Kind: "mc", Name: "k", Module: "MC_C14", Cfg: "C14_k.cfg", Timeout: 10 * time.Minute, TLCWorkers: 4, Workers: 8},
 			{Kind: "mc", Name: "dev-empty", Module: "MC_C14", Cfg: "C14_dev_empty.cfg", Timeout: 5 * time.Minute, TLCWorkers: 1, NoExport: true, Expect: "AllCompleted"},
 			{Kind: "mc", Name: "dev-nochain", Module: "MC_C14", Cfg: "C14_dev_nochain.cfg", Timeout: 5 * time.Minute, TLCWorkers: 1, NoExport: true, Expect: "AllCompleted"},
 			{Kind: "mc", Name: "registry", Module: "Registry", Cfg: "Registry_thorough.cfg", Timeout: 10 * time.Minute, TLCWorkers: 4, Workers: 4},
